@@ -75,7 +75,6 @@ func c16Run(r *zsim.Run) {
 		for _, t := range tasks {
 			b = append(b, t.(*c16Task))
 		}
-		batches = append(batches, b)
 		beg := r.Seq()
 		for _, t := range b {
 			t.execBeg = beg
@@ -84,8 +83,17 @@ func c16Run(r *zsim.Run) {
 		if d := zsim.Pick(o, 0, 0, 1, 5, 30); d > 0 {
 			zsim.Sleep(time.Duration(d) * time.Millisecond)
 		}
+		// the consumer reads the batch while it works on it: what it holds at the end is what was processed
+		var now []*c16Task
+		for _, t := range tasks {
+			now = append(now, t.(*c16Task))
+		}
+		if c16Names(now) != c16Names(b) {
+			r.Failf("batch-changed-during-execution", "the batch handed to execute was %s and became %s while execute was still running", c16Names(b), c16Names(now))
+		}
+		batches = append(batches, now)
 		end := r.Seq()
-		for _, t := range b {
+		for _, t := range now {
 			t.execs++
 			t.execEnd = end
 		}
@@ -111,7 +119,12 @@ func c16Run(r *zsim.Run) {
 		pe = NewPeriodicalExecutor(interval, pc)
 		add, flush, wait = func(t *c16Task) { pe.Add(t) }, func() { pe.Flush() }, pe.Wait
 	}
-	r.Logf("kind=%d interval=%v maxTasks=%d maxBytes=%d adders=%d", kind, interval, maxTasks, maxBytes, adders)
+	if r.Fault.Intn(3) == 2 {
+		// some runs stall tasks at arbitrary scheduling points for up to 40 intervals
+		r.StallOdds = 150
+		r.StallUnit = interval
+	}
+	r.Logf("kind=%d interval=%v maxTasks=%d maxBytes=%d adders=%d stalls=%v", kind, interval, maxTasks, maxBytes, adders, r.StallOdds > 0)
 	// evaluated the moment a Wait returns (no other task runs in between)
 	checkWait := func(wt *c16Wait) bool {
 		for _, t := range all {
